@@ -14,11 +14,11 @@
    authentication test in front: it is the SPECIFICATION the property asks for, not a model of
    the code (see Proofs/IceAuthProofs.v, notes/C06.md).
 
-   Definitions only.  Not modelled: packets arriving on an accepted TCP stream (the
-   complete_controlled_inbound_tcp_nomination path; the receiving socket is UDP, shared-UDP or
-   TURN, for which the handler only differs in how `local_addr` is obtained), socket publication
-   (selected_socket / selected_rtcp_socket), keepalive and disconnect timers, TURN transactions,
-   gathering.  Several check rounds may be in flight; they are distinguished by a round id chosen
+   Definitions only.  The receiving socket is either datagram-like (`KUdp`: Udp, SharedUdp or
+   Turn senders, for which the handler only differs in how `local_addr` is obtained) or an ICE-TCP
+   stream (`KTcp`: complete_controlled_inbound_tcp_nomination applies, USE-CANDIDATE is skipped).
+   Not modelled: socket publication (selected_socket / selected_rtcp_socket), keepalive and
+   disconnect timers, TURN transactions, gathering, TCP connection management.  Several check rounds may be in flight; they are distinguished by a round id chosen
    by the environment. *)
 From Coq Require Import ZArith List Bool.
 From RV Require Import Lib.Wrap Gen.IcePrio Gen.StunCodes Gen.IceAgent.
@@ -37,7 +37,11 @@ Record cand : Set := mkCand {
   c_base : addr;                 (* IceCandidate::base_address() *)
   c_typ : IceCandidateType;
   c_prio : Z;                    (* IceCandidate.priority (u32) *)
-  c_tcp : bool }.                (* transport == "tcp" *)
+  c_tcp : bool;                  (* transport == "tcp" *)
+  c_passive : bool }.            (* tcp_type == Some(Passive) *)
+
+(* kind of the socket a datagram arrived on *)
+Inductive skind : Set := KUdp | KTcp.
 
 Record pair : Set := mkPair { p_local : cand; p_remote : cand }.
 
@@ -143,17 +147,22 @@ Definition find_remote (rs : list cand) (a : addr) : option cand :=
 Definition find_local (ls : list cand) (la : addr) : option cand :=
   find (fun c => addr_eqb (c_base c) la) ls.
 
-(* the candidate pushed for an unknown source (transport "udp": the socket is not a TCP stream) *)
-Definition prflx (a : addr) : cand :=
-  mkCand a a IceCandidateType_PeerReflexive
-         (priority_for IceCandidateType_PeerReflexive prflx_component) false.
+(* the candidate pushed for an unknown source; transport and priority follow the socket kind *)
+Definition prflx_k (sk : skind) (a : addr) : cand :=
+  match sk with
+  | KUdp => mkCand a a IceCandidateType_PeerReflexive
+                   (priority_for IceCandidateType_PeerReflexive prflx_component) false false
+  | KTcp => mkCand a a IceCandidateType_PeerReflexive
+                   (priority_for_tcp IceCandidateType_PeerReflexive prflx_tcp_component TcpType_Passive) true false
+  end.
+Definition prflx (a : addr) : cand := prflx_k KUdp a.
 
-Definition learn (s : agent) (src : addr) : agent * list out :=
+Definition learn (s : agent) (sk : skind) (src : addr) : agent * list out :=
   if known (a_remotes s) src then (s, [])
-  else (set_remotes s (a_remotes s ++ [prflx src]), [ORunChecks]).
+  else (set_remotes s (a_remotes s ++ [prflx_k sk src]), [ORunChecks]).
 
 Definition retarget (c : cand) (a : addr) : cand :=
-  mkCand a (c_base c) (c_typ c) (c_prio c) (c_tcp c).
+  mkCand a (c_base c) (c_typ c) (c_prio c) (c_tcp c) (c_passive c).
 
 (* `pair.remote.address.port() == addr.port() && pair.remote.address.ip() != addr.ip()` *)
 Definition latch_applies (s : agent) (src : addr) : bool :=
@@ -204,11 +213,39 @@ Definition role_guard (r : IceRole) : bool :=
   if use_candidate_role_is_controlled then IceRole_eqb r IceRole_Controlled
   else IceRole_eqb r IceRole_Controlling.
 
-Definition on_request (s : agent) (la src : addr) (k : packet) : agent * list out :=
-  let '(s1, o1) := learn s src in
+(* complete_controlled_inbound_tcp_nomination(sender, addr, inner) for a TcpStream sender whose
+   local address is la: runs for EVERY request on the stream, before USE-CANDIDATE is looked at *)
+Definition unspecified (a : addr) : bool := ip a =? 0.
+Definition find_local_tcp1 (ls : list cand) (la : addr) : option cand :=
+  find (fun c => addr_eqb (c_base c) la
+                 || (c_tcp c && (port (c_base c) =? port la) && (unspecified (c_base c) || unspecified la))) ls.
+Definition find_local_tcp2 (ls : list cand) (la : addr) : option cand :=
+  find (fun c => c_tcp c && c_passive c && ((port (c_base c) =? port la) || (port (c_addr c) =? port la))) ls.
+
+Definition tcp_select (s : agent) (l r : cand) : agent :=
+  set_nominated (set_state (set_selected s (Some (mkPair l r))) St_Connected) (Some true).
+
+Definition tcp_nominate (s : agent) (la src : addr) : agent :=
+  if negb (IceRole_eqb (a_role s) IceRole_Controlled) then s
+  else if is_some (a_nominated s) then s
+  else
+    match find_local_tcp1 (a_locals s) la, find_remote (a_remotes s) src with
+    | Some l, Some r => tcp_select s l r
+    | _, _ =>
+        match find_local_tcp2 (a_locals s) la, find_remote (a_remotes s) src with
+        | Some l, Some r => tcp_select s l r
+        | _, _ => set_nominated s (Some true)
+        end
+    end.
+
+Definition on_request (s : agent) (sk : skind) (la src : addr) (k : packet) : agent * list out :=
+  let '(s1, o1) := learn s sk src in
   let s2 := latch s1 src in
-  let s3 := if k_use_candidate k && role_guard (a_role s2) then nominate s2 la src else s2 in
-  (s3, OSend src (k_tx k) :: o1).
+  let s3 := match sk with KTcp => tcp_nominate s2 la src | KUdp => s2 end in
+  let s4 := if k_use_candidate k && role_guard (a_role s3)
+            then match sk with KTcp => s3 | KUdp => nominate s3 la src end
+            else s3 in
+  (s4, OSend src (k_tx k) :: o1).
 
 (* ------------------------------------------------------------------ responses *)
 Fixpoint lookup (id : Z) (l : list txn) : option txn :=
@@ -230,9 +267,9 @@ Definition on_response (s : agent) (k : packet) (succ : bool) : agent * list out
   | None => (s, [])
   end.
 
-Definition on_packet (s : agent) (la src : addr) (k : packet) : agent * list out :=
+Definition on_packet (s : agent) (sk : skind) (la src : addr) (k : packet) : agent * list out :=
   match classify k with
-  | CReq => on_request s la src k
+  | CReq => on_request s sk la src k
   | CSucc => on_response s k true
   | CErr => on_response s k false
   | CInd | CBad => (s, [])
@@ -241,10 +278,10 @@ Definition on_packet (s : agent) (la src : addr) (k : packet) : agent * list out
 
 (* the specification variant: identical, except that a request lacking valid credentials is
    rejected before it is looked at.  NOT a model of the code. *)
-Definition on_packet_guarded (s : agent) (la src : addr) (k : packet) : agent * list out :=
+Definition on_packet_guarded (s : agent) (sk : skind) (la src : addr) (k : packet) : agent * list out :=
   match classify k with
-  | CReq => if authenticated k then on_request s la src k else (s, [OReject src (k_tx k)])
-  | _ => on_packet s la src k
+  | CReq => if authenticated k then on_request s sk la src k else (s, [OReject src (k_tx k)])
+  | _ => on_packet s sk la src k
   end.
 
 (* ------------------------------------------------------------------ check rounds (internal operations) *)
@@ -328,7 +365,7 @@ Definition nom_done (s : agent) (r : Z) : agent :=
 
 (* ------------------------------------------------------------------ operations *)
 Inductive op : Set :=
-| Pkt (la src : addr) (k : packet)       (* a datagram arrives on the socket bound to la *)
+| Pkt (sk : skind) (la src : addr) (k : packet)   (* a datagram / frame arrives on a socket of kind sk bound to la *)
 | Launch (t : txn)                       (* perform_binding_check registered its transaction and sent the request *)
 | Expire (id : Z)                        (* TransactionGuard dropped (timeout / cancellation) *)
 | RoundDone (r : Z)
@@ -338,10 +375,10 @@ Inductive op : Set :=
 | ApiSelectPair (p : pair)               (* select_pair *)
 | ApiSetRole (r : IceRole).
 
-Definition step_with (onp : agent -> addr -> addr -> packet -> agent * list out)
+Definition step_with (onp : agent -> skind -> addr -> addr -> packet -> agent * list out)
                      (s : agent) (o : op) : agent * list out :=
   match o with
-  | Pkt la src k => onp s la src k
+  | Pkt sk la src k => onp s sk la src k
   | Launch t => (launch s t, [])
   | Expire id => (expire s id, [])
   | RoundDone r => (round_done s r, [])
@@ -355,7 +392,7 @@ Definition step_with (onp : agent -> addr -> addr -> packet -> agent * list out)
 Definition step := step_with on_packet.
 Definition step_guarded := step_with on_packet_guarded.
 
-Definition run_with (onp : agent -> addr -> addr -> packet -> agent * list out) (s : agent) (ops : list op) : agent :=
+Definition run_with (onp : agent -> skind -> addr -> addr -> packet -> agent * list out) (s : agent) (ops : list op) : agent :=
   fold_left (fun s o => fst (step_with onp s o)) ops s.
 Definition run := run_with on_packet.
 Definition run_guarded := run_with on_packet_guarded.
@@ -385,7 +422,7 @@ Definition mux_route (m : mux) (src : addr) (k : packet) : mux * bool :=
 Definition mux_step (ms : mux * agent) (o : op) : (mux * agent) * list out :=
   let '(m, s) := ms in
   match o with
-  | Pkt la src k =>
+  | Pkt _ la src k =>
       let '(m', deliver) := mux_route m src k in
       if deliver then let '(s', out) := step s o in ((m', s'), out) else ((m', s), [])
   | _ => let '(s', out) := step s o in ((m, s'), out)
@@ -398,9 +435,9 @@ Definition mux_run (ms : mux * agent) (ops : list op) : mux * agent :=
 Fixpoint mux_kept (m : mux) (ops : list op) : list op :=
   match ops with
   | [] => []
-  | Pkt la src k :: r =>
+  | Pkt sk la src k :: r =>
       let '(m', deliver) := mux_route m src k in
-      if deliver then Pkt la src k :: mux_kept m' r else mux_kept m' r
+      if deliver then Pkt sk la src k :: mux_kept m' r else mux_kept m' r
   | o :: r => o :: mux_kept m r
   end.
 
@@ -409,12 +446,21 @@ Fixpoint mux_kept (m : mux) (ops : list op) : list op :=
 Definition protected (s : agent) : list cand * option pair * option bool * ice_state :=
   (a_remotes s, a_selected s, a_nominated s, a_state s).
 
-(* the listed finding `unauth_request_mutates`: the three ways in which handle_stun_request lets
-   a request -- authenticated or not -- act on the protected state *)
-Definition mutation_class (s : agent) (src : addr) (k : packet) : bool :=
-  negb (known (a_remotes s) src)                      (* peer-reflexive learning *)
-  || latch_applies s src                              (* latching retarget of the selected pair *)
-  || (k_use_candidate k && role_guard (a_role s)).    (* USE-CANDIDATE nomination on the controlled side *)
+(* the listed finding `unauth_request_mutates`: the ways in which handle_stun_request lets a
+   request -- authenticated or not -- act on the protected state *)
+Definition tcp_applies (s : agent) (sk : skind) : bool :=
+  match sk with
+  | KTcp => IceRole_eqb (a_role s) IceRole_Controlled && negb (is_some (a_nominated s))
+  | KUdp => false
+  end.
+Definition uc_applies (s : agent) (sk : skind) (k : packet) : bool :=
+  match sk with KUdp => k_use_candidate k && role_guard (a_role s) | KTcp => false end.
+
+Definition mutation_class (s : agent) (sk : skind) (src : addr) (k : packet) : bool :=
+  negb (known (a_remotes s) src)      (* peer-reflexive learning *)
+  || latch_applies s src              (* latching retarget of the selected pair *)
+  || uc_applies s sk k                (* USE-CANDIDATE nomination on the controlled side (datagram sockets) *)
+  || tcp_applies s sk.                (* any request on an ICE-TCP stream of a controlled, not yet nominated agent *)
 
 (* ------------------------------------------------------------------ observation for the correspondence run *)
 Definition cand_obs : Set := (addr * Z * Z * bool)%type.     (* address, type code, priority, tcp *)
